@@ -15,18 +15,18 @@ RULE = ("Hypothesis over service YAMLs (each subset of the three mixin APIs list
         "and returns the standard response; over REST it uses the rule's verb, path and body; an API-defined IAM RPC still reaches its "
         "own service path. Non-trivial: proper non-empty rule subset, IAM override, or add-iam-methods; distinct = (listed APIs, rule "
         "subset class, override position, transport, option).")
-ASSUMPTIONS = ["mixin request names are generated to match the rule's path pattern"]
+ASSUMPTIONS = ["mixin request names are generated to match the path pattern of one of the rule's bindings (primary or additional); the binding that has to be used is the first one the name fits"]
 
 RULE_TEMPLATES = {
     "google.longrunning.Operations.ListOperations": [("get", "/v1/{name=projects/*}/operations", None), ("get", "/v2/{name=projects/*/locations/*}/operations", None)],
     "google.longrunning.Operations.GetOperation": [("get", "/v1/{name=operations/*}", None), ("get", "/v1/{name=projects/*/operations/*}", None)],
-    "google.longrunning.Operations.DeleteOperation": [("delete", "/v1/{name=operations/*}", None)],
+    "google.longrunning.Operations.DeleteOperation": [("delete", "/v1/{name=operations/*}", None), ("delete", "/v1/{name=projects/*/operations/*}", None)],
     "google.longrunning.Operations.CancelOperation": [("post", "/v1/{name=operations/*}:cancel", "*"), ("post", "/v1/{name=projects/*/operations/*}:cancel", None)],
-    "google.longrunning.Operations.WaitOperation": [("post", "/v1/{name=operations/*}:wait", "*")],
-    "google.iam.v1.IAMPolicy.SetIamPolicy": [("post", "/v1/{resource=projects/*/things/*}:setIamPolicy", "*")],
+    "google.longrunning.Operations.WaitOperation": [("post", "/v1/{name=operations/*}:wait", "*"), ("post", "/v1/{name=projects/*/operations/*}:wait", "*")],
+    "google.iam.v1.IAMPolicy.SetIamPolicy": [("post", "/v1/{resource=projects/*/things/*}:setIamPolicy", "*"), ("post", "/v1/{resource=projects/*/shelves/*}:setIamPolicy", "*")],
     "google.iam.v1.IAMPolicy.GetIamPolicy": [("get", "/v1/{resource=projects/*/things/*}:getIamPolicy", None), ("post", "/v1/{resource=projects/*/things/*}:getIamPolicy", "*")],
-    "google.iam.v1.IAMPolicy.TestIamPermissions": [("post", "/v1/{resource=projects/*/things/*}:testIamPermissions", "*")],
-    "google.cloud.location.Locations.ListLocations": [("get", "/v1/{name=projects/*}/locations", None)],
+    "google.iam.v1.IAMPolicy.TestIamPermissions": [("post", "/v1/{resource=projects/*/things/*}:testIamPermissions", "*"), ("post", "/v1/{resource=projects/*/shelves/*}:testIamPermissions", "*")],
+    "google.cloud.location.Locations.ListLocations": [("get", "/v1/{name=projects/*}/locations", None), ("get", "/v1/{name=organizations/*}/locations", None)],
     "google.cloud.location.Locations.GetLocation": [("get", "/v1/{name=projects/*/locations/*}", None), ("get", "/v2/{name=organizations/*/locations/*}", None)],
 }
 
@@ -52,16 +52,27 @@ def _case(draw):
             target["methods"].append({"name": rpc, "input": io[0], "output": io[1],
                                       "http": {"verb": "post", "uri": "/v1/{resource=shelves/*}:" + rpc[0].lower() + rpc[1:], "body": "*"}})
     listed = [a for a in MX.MIXINS if draw(st.booleans())]
-    rules = []
+    rules, excluded = [], []
     for a in MX.MIXINS:
         mode = draw(st.sampled_from(["all", "all", "none", "subset"]))
         for rpc in MX.MIXINS[a]:
             sel = f"{a}.{rpc}"
             if mode == "all" or (mode == "subset" and draw(st.booleans())):
-                verb, uri, body = draw(st.sampled_from(RULE_TEMPLATES[sel]))
+                tpls = RULE_TEMPLATES[sel]
+                i = draw(st.integers(0, len(tpls) - 1))
+                verb, uri, body = tpls[i]
                 r = {"selector": sel, verb: uri}
                 if body:
                     r["body"] = body
+                if draw(st.integers(0, 2)) == 0:
+                    # additional bindings: the other templates of this RPC (their path patterns differ from the primary's)
+                    others = [(v, u, b) for j, (v, u, b) in enumerate(tpls) if j != i and u != uri]
+                    if any(b != body for _v, _u, b in others) and draw(st.integers(0, 3)) != 0:
+                        # known finding F-rest-mixin-additional-bindings-body: body handling follows the primary binding only
+                        excluded.append("F-rest-mixin-additional-bindings-body")
+                        others = [o for o in others if o[2] == body]
+                    if others:
+                        r["additional_bindings"] = [dict({v: u}, **({"body": b} if b else {})) for v, u, b in others]
                 rules.append(r)
     host = svcs[0].get("host", "lib.acme.com") if svcs else "lib.acme.com"
     yaml_ = {"type": "google.api.Service", "config_version": 3, "name": host,
@@ -71,6 +82,8 @@ def _case(draw):
     add_iam = draw(st.integers(0, 4)) == 0 and not MX.own_iam_rpcs(api)
     opts = {"params": ["autogen-snippets=False", f"transport={t}"] + (["add-iam-methods"] if add_iam else []), "snippets": False, "transport": t,
             "service_yaml": yaml_, "add_iam_methods": add_iam}
+    if excluded:
+        api["_excluded"] = sorted(set(api.get("_excluded", [])) | set(excluded))
     return {"api": api, "options": opts, "own": own, "inner": {"seed": draw(st.integers(0, 2 ** 31)), "n": 3}}
 
 
